@@ -250,6 +250,12 @@ func (w *writer) WriteHeader(code int) {
 	if code < 100 || code > 999 {
 		panic(fmt.Sprintf("invalid WriteHeader code %v", code))
 	}
+	// Under net/http an informational code (other than 101) sends an interim
+	// response and leaves the final status to a later call. The adaptor sends
+	// no interim responses, but must not take one for the final status.
+	if code >= 100 && code <= 199 && code != http.StatusSwitchingProtocols {
+		return
+	}
 	w.statusCode.CompareAndSwap(0, int64(code))
 }
 
